@@ -112,7 +112,7 @@ def verify(contract, timeout_s=30, callees=None, include=None, exclude=None):
     return out, info
 
 
-def verify_many(items, timeout_s=30):
+def verify_many(items, timeout_s=30, known_open=None):
     """items: list of (key, contract, include, exclude). Generates all obligations first, then discharges them in ONE pool
     (better use of the cores). returns dict key -> (list of engine.common.Obligation, info)."""
     import re
@@ -142,7 +142,8 @@ def verify_many(items, timeout_s=30):
     saved = [(o, o.name) for o in allobls]
     for o in allobls:
         o.name = o.uid
-    res = {r['name']: r for r in solve.discharge(allobls, timeout_s=timeout_s)}
+    orig = {o.uid: nm for o, nm in saved}
+    res = {r['name']: r for r in solve.discharge(allobls, timeout_s=timeout_s, no_escalate=(lambda uid: known_open(orig[uid])) if known_open else None)}
     for o, nm in saved:
         o.name = nm
     for key, (eng, obls, info, gsec) in gen.items():
